@@ -22,6 +22,8 @@ ASSUMPTIONS = [
     "reference = textbook LoROM/HiROM range tables and (bank-first bank)*size+(addr-window start)",
     "offsets of addresses below a 32K window and increments leaving the mapped ROM range are unjudged",
     "writable= in .map is only generated as writable=1 (RAM) or absent (ROM)",
+    "a .map window that shows the upper half of a 64K bank (addr_range 0x8000-0xFFFF, mask 0x10000, as the HiROM system area) "
+    "has offset (bank-first)*64K + addr mod 64K: position inside the bank's file image",
 ]
 EXHAUSTIVE_WHEN_PARTS = False
 
@@ -89,7 +91,7 @@ def check_lookup(res: Res, cfg, bus, rom: str, a: int, table, wit: dict | None =
             res.violate("ram-has-offset", f"{rom}: RAM address {a:#08x} gave {got}", W)
         return
     low = a & 0xFFFF
-    if low < r["win"]:
+    if low < r["wlo"]:
         res.count("lookup_below_window_unjudged")
         res.evals += 1
         return
@@ -129,7 +131,7 @@ def run_lookup(shard: dict, res: Res) -> None:
                 except Exception as e:  # noqa: BLE001
                     got = type(e).__name__
                 res.count("program_get_physical_address")
-                if isinstance(exp, int) and low >= table[bank]["win"] and got != exp:
+                if isinstance(exp, int) and low >= table[bank]["wlo"] and got != exp:
                     res.violate("program-physical", f"{rom}: Program.get_physical_address({a:#x}) = {got}, expected {exp:#x}", {"kind": "lookup", "rom": rom, "a": a})
                 if not isinstance(exp, int) and isinstance(got, int):
                     res.violate("program-physical", f"{rom}: Program.get_physical_address({a:#x}) = {got:#x} for {exp} address", {"kind": "lookup", "rom": rom, "a": a})
@@ -141,7 +143,7 @@ def check_advance(res: Res, cfg, bus, tag, a: int, m: int, n: int, wit: dict) ->
     r = rm.find(cfg, a)
     if r is None:
         return
-    if not r["ram"] and (a & 0xFFFF) < r["win"]:
+    if not r["ram"] and (a & 0xFFFF) < r["wlo"]:
         res.count("advance_below_window_unjudged")
         res.evals += 1
         return
@@ -180,7 +182,7 @@ def check_advance(res: Res, cfg, bus, tag, a: int, m: int, n: int, wit: dict) ->
         pa, pb = A.physical, B.physical
         if pa is None or pb is None or pb != pa + n:
             res.violate("advance-offset", f"{tag}: offset({a:#x}+{n}) = {pb}, offset({a:#x}) = {pa}", wit)
-        if (B.logical_value & 0xFFFF) < r["win"] or not rm.same_range(cfg, a, B.logical_value):
+        if (B.logical_value & 0xFFFF) < r["wlo"] or not rm.same_range(cfg, a, B.logical_value):
             res.violate("advance-window", f"{tag}: {a:#x}+{n} = {B.logical_value:#x} left the window/range", wit)
     Z = adv(A, 0)
     if isinstance(Z, Exception) or Z.logical_value != a:
@@ -203,7 +205,7 @@ EDGE_INCS = [0, 1, 2, 3, 0x7F, 0x80, 0xFF, 0x100, 0x7FFE, 0x7FFF, 0x8000, 0x8001
 def gen_addr(rng: random.Random, cfg) -> int:
     r = rng.choice(cfg)
     bank = rng.choice([r["lo"], r["hi"], rng.randint(r["lo"], r["hi"]), rng.randint(r["lo"], r["hi"])])
-    w = r["win"]
+    w = r["wlo"]
     low = rng.choice([w, w + 1, 0xFFFF, 0xFFFE, 0xFFFD, rng.randint(w, 0xFFFF), rng.randint(w, 0xFFFF), 0xFFFF - rng.randint(0, 300), w + rng.randint(0, 300)])
     return (bank << 16) | low
 
@@ -259,10 +261,11 @@ def gen_map_config(rng: random.Random) -> list[dict]:
         if br is None:
             break
         size = rng.choice([0x8000, 0x10000])
+        partial = size == 0x10000 and rng.random() < 0.25   # upper half of a 64K bank visible (HiROM system area)
         m = {
             "identifier": i + 1,
             "bank_range": br,
-            "addr_range": (0x8000, 0xFFFF) if size == 0x8000 else (0, 0xFFFF),
+            "addr_range": (0x8000, 0xFFFF) if size == 0x8000 or partial else (0, 0xFFFF),
             "mask": size,
         }
         if rng.random() < 0.25:
